@@ -1,6 +1,263 @@
+// Generators for the run-length vector: C03 (answers + run iterator), C11 (conversions, construction routes),
+// the RL parts of C09 / C10 / C16.
 use crate::gen::*;
-pub fn c03(_g: &mut Gen) { panic!("harness: generator c03 not built yet"); }
-pub fn c11(_g: &mut Gen) { panic!("harness: generator c11 not built yet"); }
-pub fn c09_rl(_g: &mut Gen) {}
-pub fn c10_rl(_g: &mut Gen) {}
-pub fn c16_rl(_g: &mut Gen) {}
+use crate::gen_bv::{bitstring, call_sequences, fwd_alphabet, make_bits};
+
+fn runs_calls(runs: &[(u64, u64)], len: Option<u64>) -> String {
+    let mut s: Vec<String> = runs.iter().map(|(a, l)| format!("s{},{}", a, l)).collect();
+    if let Some(n) = len { s.push(format!("l{}", n)); }
+    s.join(" ")
+}
+
+fn rl_queries(g: &mut Gen, name: &str, runs: &[(u64, u64)], len: u64, samples: usize, lines: &mut Vec<String>) {
+    let ones: u64 = runs.iter().map(|r| r.1).sum();
+    lines.push(format!("rl {} len", name)); lines.push(format!("rl {} ones", name)); lines.push(format!("rl {} zeros", name));
+    let mut args: Vec<u64> = vec![0, 1, len.saturating_sub(1), len, len.saturating_add(1), len / 2];
+    let step = std::cmp::max(1, runs.len() / 25);
+    for (a, l) in runs.iter().step_by(step) { for x in [a.saturating_sub(1), *a, a + 1, a + l - 1, a + l, (a + l).saturating_add(1)] { args.push(x); } }
+    for _ in 0..samples { args.push(g.rng.below(len.saturating_add(2).max(1))); }
+    args.sort(); args.dedup();
+    for a in &args {
+        if *a < len { lines.push(format!("rl {} get {}", name, a)); }
+        lines.push(format!("rl {} rank {}", name, a));
+        if *a <= len { lines.push(format!("rl {} rank0 {}", name, a)); }
+        lines.push(format!("rl {} pred {}", name, a));
+        lines.push(format!("rl {} succ {}", name, a));
+    }
+    let mut ranks: Vec<u64> = vec![0, 1, ones.saturating_sub(1), ones, ones.saturating_add(1), ones / 2];
+    let mut acc = 0u64;
+    for (_, l) in runs.iter().step_by(step) { ranks.push(acc); ranks.push(acc + l - 1); acc += l; }
+    for _ in 0..samples { ranks.push(g.rng.below(ones.saturating_add(2).max(1))); }
+    ranks.sort(); ranks.dedup();
+    for r in &ranks { lines.push(format!("rl {} select {}", name, r)); }
+    let z = len - ones;
+    let mut zr: Vec<u64> = vec![0, 1, z.saturating_sub(1), z, z.saturating_add(1), z / 2];
+    for (a, _) in runs.iter().step_by(step) { zr.push(*a); zr.push(a.saturating_sub(1)); }
+    for _ in 0..samples { zr.push(g.rng.below(z.saturating_add(2).max(1))); }
+    zr.sort(); zr.dedup();
+    for r in &zr { lines.push(format!("rl {} select0 {}", name, r)); }
+    lines.push(format!("rl {} runs", name));
+}
+
+/// runs with gaps / lengths drawn from the given magnitudes
+fn make_runs(g: &mut Gen, n: usize, mags: &[u64], start_at_zero: bool) -> (Vec<(u64, u64)>, u64) {
+    let mut runs = Vec::new();
+    let mut pos: u64 = 0;
+    for i in 0..n {
+        let gm = *g.rng.pick(mags); let lm = *g.rng.pick(mags);
+        let gap = if i == 0 && start_at_zero { 0 } else { 1 + g.rng.below(gm) + gm / 2 };
+        let len = 1 + g.rng.below(lm) + lm / 2;
+        if pos.checked_add(gap).and_then(|x| x.checked_add(len)).map(|x| x > (1u64 << 63) - 2).unwrap_or(true) { break; }
+        runs.push((pos + gap, len));
+        pos = pos + gap + len;
+    }
+    (runs, pos)
+}
+
+pub fn c03(g: &mut Gen) {
+    let samples = if g.thorough { 60 } else { 15 };
+    // no runs at all, with and without length
+    for len in [0u64, 1, 64, 1000] {
+        let mut lines = vec![format!("rl A build : l{}", len)];
+        rl_queries(g, "A", &[], len, 5, &mut lines);
+        lines.push("rl A ser".to_string());
+        g.group(lines);
+    }
+    // run at position 0 / not, trailing zeros / not, magnitudes from 1 to 2^62, number of blocks 1, 8, 9, many
+    let mag_sets: Vec<Vec<u64>> = vec![vec![1], vec![1, 7, 8], vec![1, 7, 8, 1 << 21], vec![1 << 21, 1 << 32], vec![1, 1 << 32, 1 << 40], vec![1 << 55, 1 << 58]];
+    let counts: Vec<usize> = if g.thorough { vec![1, 2, 30, 33, 250, 270, 300, 1000, 3300] } else { vec![1, 2, 33, 260, 300, 700] };
+    for mags in &mag_sets {
+        for n in &counts {
+            for start0 in [false, true] {
+                if !g.thorough && *n > 300 && mags.len() > 2 { continue; }
+                let (runs, end) = make_runs(g, *n, mags, start0);
+                if runs.is_empty() { continue; }
+                let trailing = if g.rng.chance(1, 2) { 0 } else { 1 + g.rng.below(1000) };
+                let len = end + trailing;
+                let mut lines = vec![format!("rl A build : {}", runs_calls(&runs, if trailing > 0 { Some(len) } else { None }))];
+                rl_queries(g, "A", &runs, len, samples, &mut lines);
+                lines.push("rl A ser".to_string());
+                g.group(lines);
+            }
+        }
+    }
+    // blocks closed early: runs whose two codes need many units (22 + 21 + … > what is left in the block)
+    for k in 0..6u64 {
+        let mut runs: Vec<(u64, u64)> = Vec::new();
+        let mut pos = 0u64;
+        for i in 0..40u64 {
+            let (gap, len) = if (i + k) % 5 == 0 { (1u64 << (20 + 3 * k), 1u64 << (18 + 2 * k)) } else { (1 + (i % 3), 1 + (i % 7)) };
+            runs.push((pos + gap, len)); pos += gap + len;
+        }
+        let mut lines = vec![format!("rl A build : {}", runs_calls(&runs, Some(pos + 5)))];
+        rl_queries(g, "A", &runs, pos + 5, samples, &mut lines);
+        lines.push("rl A ser".to_string());
+        g.group(lines);
+    }
+    // total length up to the documented maximum (about usize::MAX): few blocks, and many blocks
+    for (runs, len) in [
+        (vec![(0u64, 1u64)], (1u64 << 63) - 1), (vec![(0, 1)], 1 << 63), (vec![(5, 3)], MAXU), (vec![(0, 1 << 62), ((1 << 62) + 5, 1 << 61)], MAXU - 1),
+        (vec![(MAXU - 10, 5)], MAXU), (vec![(1 << 63, 1 << 62)], MAXU),
+    ] {
+        let mut lines = vec![format!("rl A build : {}", runs_calls(&runs, Some(len)))];
+        rl_queries(g, "A", &runs, len, 8, &mut lines);
+        g.group(lines);
+    }
+    // the block-0-holds-only-a-run-at-0 layout with at least 9 blocks (zero counts before blocks repeat)
+    {
+        let mut runs: Vec<(u64, u64)> = vec![(0, (1u64 << 63) + 1)];
+        let mut pos = (1u64 << 63) + 1;
+        for _ in 0..10 { let gap = 1u64 << 58; let len = (1u64 << 57) + 1; if pos.checked_add(gap + len).is_none() { break; } runs.push((pos + gap, len)); pos += gap + len; }
+        let mut lines = vec![format!("rl A build : {}", runs_calls(&runs, None))];
+        rl_queries(g, "A", &runs, pos, 8, &mut lines);
+        g.group(lines);
+    }
+    // adjacent input runs are merged; bit-at-a-time construction; set_len between runs
+    let mut lines = vec!["rl A build : s3,2 s5,4 s9,1 s20,1 s21,1 s22,5 l40".to_string()];
+    rl_queries(g, "A", &[(3, 7), (20, 7)], 40, 10, &mut lines);
+    lines.push("rl B build : b3 b4 b5 b6 b7 b8 b9 b20 b21 b22 b23 b24 b25 b26 l40".to_string());
+    lines.push("rl A eq B".to_string());
+    lines.push("rl C build : s3,7 l15 s20,7 l40".to_string());
+    lines.push("rl A eq C".to_string());
+    lines.push("rl D build : s3,7 l10 s10,2".to_string());
+    rl_queries(g, "D", &[(3, 9)], 12, 10, &mut lines);
+    lines.push("rl E build : l10 s10,5 s3,2".to_string());
+    g.group(lines);
+}
+
+pub fn c09_rl(g: &mut Gen) {
+    for (runs, len) in [(vec![], 0u64), (vec![], 10), (vec![(0u64, 1u64)], 1), (vec![(3, 4), (50, 1), (99, 1)], 100), (vec![(0, 100)], 100), (vec![(10, 5)], MAXU)] {
+        let ones: u64 = runs.iter().map(|r| r.1).sum();
+        let mut lines = vec![format!("rl A build : {}", runs_calls(&runs, Some(len)))];
+        for a in boundary_values(len) {
+            lines.push(format!("rl A rank {}", a)); lines.push(format!("rl A pred {}", a)); lines.push(format!("rl A succ {}", a));
+            lines.push(format!("rl A it succ {} : l n n", a)); lines.push(format!("rl A it pred {} : l n n", a));
+        }
+        for a in boundary_values(ones) {
+            lines.push(format!("rl A select {}", a)); lines.push(format!("rl A it sel {} : l n n", a));
+            lines.push(format!("rl A it one : N{} l n", a)); lines.push(format!("rl A it one : n N{} l n", a));
+        }
+        for a in boundary_values(len - ones) { lines.push(format!("rl A select0 {}", a)); lines.push(format!("rl A it sel0 {} : l n n", a)); }
+        if len <= 1000 { for a in boundary_values(len) { if a <= 5000 { lines.push(format!("rl A it bits : N{} l n", a)); lines.push(format!("rl A it zero : N{} l n", a)); } } }
+        g.group(lines);
+    }
+}
+
+pub fn c10_rl(g: &mut Gen) {
+    let depth = if g.thorough { 4 } else { 3 };
+    for (runs, len) in [(vec![], 0u64), (vec![], 3), (vec![(0u64, 2u64)], 2), (vec![(1, 2), (5, 1)], 8), (vec![(0, 3), (10, 30), (64, 1)], 70)] {
+        let ones: u64 = runs.iter().map(|r| r.1).sum();
+        let mut lines = vec![format!("rl A build : {}", runs_calls(&runs, Some(len)))];
+        for seq in call_sequences(&fwd_alphabet(ones), depth) { lines.push(format!("rl A it one : {}", seq.join(" "))); }
+        for seq in call_sequences(&fwd_alphabet(len - ones), depth) { lines.push(format!("rl A it zero : {}", seq.join(" "))); }
+        let bits_alpha: Vec<String> = fwd_alphabet(len).into_iter().filter(|c| !c.ends_with(&MAXU.to_string())).collect();
+        for seq in call_sequences(&bits_alpha, depth) { lines.push(format!("rl A it bits : {}", seq.join(" "))); }
+        for seq in call_sequences(&["n".to_string(), "N0".to_string(), "N1".to_string(), "N5".to_string()], depth) { lines.push(format!("rl A it run : {}", seq.join(" "))); }
+        for r in 0..=(ones + 1) { lines.push(format!("rl A it sel {} : l n n N1 l n", r)); }
+        for r in 0..=(len - ones + 1) { lines.push(format!("rl A it sel0 {} : l n n N1 l n", r)); }
+        for x in 0..=(len + 1) { lines.push(format!("rl A it pred {} : l n n l n", x)); lines.push(format!("rl A it succ {} : l n n l n", x)); }
+        g.group(lines);
+    }
+    // a multi-block vector traversed completely
+    let (runs, end) = make_runs(g, 200, &[1, 7, 8], false);
+    let ones: u64 = runs.iter().map(|r| r.1).sum();
+    let mut lines = vec![format!("rl A build : {}", runs_calls(&runs, Some(end + 3)))];
+    lines.push(format!("rl A it one : {} l n", vec!["n"; ones as usize].join(" ")));
+    lines.push(format!("rl A it zero : {} l n", vec!["n"; (end + 3 - ones) as usize].join(" ")));
+    lines.push(format!("rl A it bits : {} l n", vec!["n"; (end + 3) as usize].join(" ")));
+    lines.push(format!("rl A it run : {} n", vec!["n"; runs.len()].join(" ")));
+    g.group(lines);
+}
+
+pub fn c16_rl(g: &mut Gen) {
+    let depth = if g.thorough { 5 } else { 4 };
+    let alphabet: Vec<String> = vec!["s0,1", "s1,2", "s3,0", "s5,3", "s8,1", "s2,2", "l4", "l10", "l0", "s10,5", "s18446744073709551615,1", "s7,18446744073709551610"]
+        .into_iter().map(|s| s.to_string()).collect();
+    let mut lines = Vec::new();
+    for d in 0..=depth {
+        if d == depth && !g.thorough {
+            // at full depth sample the sequence space
+            for _ in 0..3000 { let seq: Vec<String> = (0..d).map(|_| g.rng.pick(&alphabet).clone()).collect(); lines.push(format!("rl - builder : {} c", seq.join(" "))); }
+        } else {
+            for seq in call_sequences(&alphabet, d) { lines.push(format!("rl - builder : {} c", seq.join(" "))); }
+        }
+    }
+    g.group(lines);
+}
+
+pub fn c11(g: &mut Gen) {
+    // every source / target pair, chains up to length 3, from the same bits; the result must equal what the target's
+    // own builder produces from the same bits, and serialize identically
+    let shapes: Vec<Vec<bool>> = {
+        let mut v: Vec<Vec<bool>> = vec![vec![], vec![true], vec![false], vec![false, true, true, false, true]];
+        for kind in [2usize, 3, 6, 7, 8, 9] { for len in [64usize, 65, 200, 1000] { let b = make_bits(g, len, kind); v.push(b); } }
+        if g.thorough { for kind in [2usize, 6] { let b = make_bits(g, 20000, kind); v.push(b); } }
+        v
+    };
+    let kinds = ["bv", "sp", "rl"];
+    for bits in shapes {
+        let mut lines = vec![format!("bv SRC from_bits {}", bitstring(&bits))];
+        // reference objects built by each type's own builder from the same bits
+        let ones: Vec<String> = bits.iter().enumerate().filter(|(_, b)| **b).map(|(i, _)| i.to_string()).collect();
+        lines.push(format!("sp REFsp build {} 0 {}", bits.len(), ones.join(" ")));
+        // run-wise construction with the final length
+        let mut runs: Vec<(u64, u64)> = Vec::new();
+        for (i, b) in bits.iter().enumerate() { if *b { if let Some(l) = runs.last_mut() { if l.0 + l.1 == i as u64 { l.1 += 1; continue; } } runs.push((i as u64, 1)); } }
+        lines.push(format!("rl REFrl build : {}", runs_calls(&runs, Some(bits.len() as u64))));
+        lines.push(format!("bv REFbv from_bits {}", bitstring(&bits)));
+        lines.push("bv REFbv ser".to_string());
+        lines.push("sp REFsp ser".to_string());
+        lines.push("rl REFrl ser".to_string());
+        let mut id = 0;
+        for a in kinds { for b in kinds { for c in kinds {
+            // chain SRC -> a -> b -> c by copy_of (non-consuming) and by From (consuming) alternately
+            id += 1;
+            let n1 = format!("X{}a", id); let n2 = format!("X{}b", id); let n3 = format!("X{}c", id);
+            lines.push(format!("{} {} copy_of SRC", a, n1));
+            lines.push(format!("{} {} {} {}", b, n2, if id % 2 == 0 { "copy_of" } else { "from" }, n1));
+            lines.push(format!("{} {} {} {}", c, n3, if id % 3 == 0 { "copy_of" } else { "from" }, n2));
+            lines.push(format!("{} {} eq REF{}", c, n3, c));
+            lines.push(format!("{} {} ser", c, n3));
+            lines.push(format!("{} {} len", c, n3)); lines.push(format!("{} {} ones", c, n3));
+        } } }
+        g.group(lines);
+    }
+    // builder call decompositions of one run list: bit at a time / by runs / split runs / via set_len
+    for _ in 0..(if g.thorough { 60 } else { 15 }) {
+        let nr = 1 + g.rng.below(40) as usize; let s0 = g.rng.chance(1, 2);
+        let (runs, end) = make_runs(g, nr, &[1, 7, 8], s0);
+        let len = end + g.rng.below(20);
+        let mut lines = vec![format!("rl R0 build : {}", runs_calls(&runs, Some(len)))];
+        // split every run at a random point
+        let mut split: Vec<String> = Vec::new();
+        for (a, l) in &runs { if *l > 1 { let k = 1 + g.rng.below(l - 1); split.push(format!("s{},{}", a, k)); split.push(format!("s{},{}", a + k, l - k)); } else { split.push(format!("s{},{}", a, l)); } }
+        split.push(format!("l{}", len));
+        lines.push(format!("rl R1 build : {}", split.join(" ")));
+        lines.push("rl R0 eq R1".to_string());
+        // bit at a time
+        let mut bitsc: Vec<String> = Vec::new();
+        for (a, l) in &runs { for i in 0..*l { bitsc.push(format!("b{}", a + i)); } }
+        bitsc.push(format!("l{}", len));
+        lines.push(format!("rl R2 build : {}", bitsc.join(" ")));
+        lines.push("rl R0 eq R2".to_string());
+        // set_len after every run (to a length that is not the start of the next run)
+        let mut viaset: Vec<String> = Vec::new();
+        for (i, (a, l)) in runs.iter().enumerate() {
+            viaset.push(format!("s{},{}", a, l));
+            let next_start = if i + 1 < runs.len() { runs[i + 1].0 } else { len + 1 };
+            if a + l + 1 < next_start { viaset.push(format!("l{}", a + l + 1)); }
+        }
+        viaset.push(format!("l{}", len));
+        lines.push(format!("rl R3 build : {}", viaset.join(" ")));
+        lines.push("rl R0 eq R3".to_string());
+        // set_len exactly up to the start of the next run (the next run is then adjacent to the length)
+        let mut adj: Vec<String> = Vec::new();
+        for (a, l) in &runs { if *a > 0 { adj.push(format!("l{}", a)); } adj.push(format!("s{},{}", a, l)); }
+        adj.push(format!("l{}", len));
+        lines.push(format!("rl R4 build : {}", adj.join(" ")));
+        lines.push("rl R0 eq R4".to_string());
+        lines.push("rl R4 runs".to_string());
+        lines.push("rl R0 ser".to_string()); lines.push("rl R1 ser".to_string()); lines.push("rl R4 ser".to_string());
+        g.group(lines);
+    }
+}
